@@ -147,6 +147,21 @@ CHECKS += [
              "implementation and reported as supporting exploration. PST13 parameters are the subject of C15; multilinear_pc and streaming keys "
              "are not yet covered."},
 ]
+CHECKS += [
+    {"property_id": "C12",
+     "text": "Coq theorems about the schema-directed model of the canonical format (fixed-size primitives, u64-LE lengths, option tags, vectors, byte "
+             "strings, tuples in field order): deserializing a serialization returns the value and leaves the rest of the input untouched, "
+             "ser(deser(ser x)) = ser x, reported size = bytes written, every proper prefix is an error - for every well-formed schema; all 45 "
+             "artefact schemas of the crate (hand-written and derived (de)serializers of KZG10, Marlin, Sonic, IPA, PST13, Hyrax, Ligero/Brakedown, "
+             "BatchLCProof, multilinear PC) are well-formed in both compression modes on both curves; the decoder that is extracted and run equals the "
+             "specified one. Correspondence: every key, commitment, state, single/batch/combination proof produced along honest transcripts of all 8 "
+             "trait schemes is serialized by the library in both modes; the model parses the bytes with the artefact's schema (must consume them "
+             "exactly), re-encodes them (byte equality), reports the size, and rejects the same truncations the library rejects.",
+     "note": COMMON_NOTE + " Primitive leaves (field elements, curve points, digests) are fixed-length blobs: their internal encoding and validity "
+             "checks belong to ark-serialize/ark-ec and are not modelled. Fields of equal type swapped consistently in serializer and deserializer "
+             "are invisible to parsing; they are covered by the implementation-level half (decisions with deserialized key/commitments/proof on an "
+             "honest and a tampered claim, both validation modes)."},
+]
 _PENDING = "check not built yet in this round (model and correspondence under construction; see DESIGN.md section 7)"
 _CLAIMED = {c["property_id"] for c in CHECKS}
 NOT_APPLICABLE = [{"property_id": "C%02d" % i, "reason": _PENDING} for i in range(1, 20) if "C%02d" % i not in _CLAIMED]
